@@ -17,7 +17,8 @@
 //!   memo <c|d> <prog>/<prog>[/<prog>] <sched>            memo = sig*10, initially clean|dirty;
 //!        prog = comma separated ops: g (memo.get) s<v> (sig.set v) h (hold memo.read()) d (drop it)
 //!   sig <prog>/<prog>[/<prog>] <sched>                   plain signal (initially 1), no hooks: prog ops
-//!        r (get) s<v> (set) w<v> (take the write guard, assign, keep it) u (drop the write guard)
+//!        r (get) s<v> (set) w<v> .. u (one `sig.update(|n| { *n = v; <the ops up to u> })`: the closure runs
+//!        with the value write-locked, as every update does)
 //!   stress effect <seed> <writers> <iters>               free-running threads + watchdog (testing only)
 //! Both sides append the same tail to the schedule (3 rounds of 8 entries per party), so every
 //! run is a complete one; an entry for a finished / parked-and-not-woken / in-flight party is a no-op.
@@ -912,10 +913,69 @@ mod real {
             .collect()
     }
 
+    /// Runs the ops of one party from `*k` on.  `w<v>` is `sig.update(|n| { *n = v; ...following ops... })`:
+    /// the ops up to the matching `u` run inside the update closure, i.e. while the signal's value
+    /// lock is write-held by this thread (an `update` in progress, ordinary use of the API).
+    /// Returns true when the case was released.
+    fn sig_exec(
+        sig: &ArcRwSignal<u32>,
+        prog: &[SOp],
+        k: &mut usize,
+        res: &Mutex<Vec<String>>,
+        inside: bool,
+    ) -> bool {
+        use reactive_graph::traits::Update;
+        while *k < prog.len() {
+            if yield_here(if *k == 0 { "h:start" } else { "h:next" }) {
+                return true;
+            }
+            let op = prog[*k];
+            *k += 1;
+            match op {
+                SOp::Read => {
+                    let r = match catch_unwind(AssertUnwindSafe(|| sig.get_untracked())) {
+                        Ok(v) => v.to_string(),
+                        Err(_) => "panic".into(),
+                    };
+                    res.lock().unwrap().push(r);
+                }
+                SOp::Set(v) => {
+                    let r = match catch_unwind(AssertUnwindSafe(|| sig.set(v))) {
+                        Ok(()) => ".".to_string(),
+                        Err(_) => "panic".into(),
+                    };
+                    res.lock().unwrap().push(r);
+                }
+                SOp::HoldWrite(v) => {
+                    let mut released = false;
+                    let r = catch_unwind(AssertUnwindSafe(|| {
+                        sig.update(|n| {
+                            *n = v;
+                            res.lock().unwrap().push(".".into());
+                            released = sig_exec(sig, prog, k, res, true);
+                        })
+                    }));
+                    if r.is_err() {
+                        res.lock().unwrap().push("panic".into());
+                    }
+                    if released {
+                        return true;
+                    }
+                }
+                SOp::Unhold => {
+                    res.lock().unwrap().push(".".into());
+                    if inside {
+                        return false;
+                    }
+                }
+            }
+        }
+        false
+    }
+
     /// plain signal, no hooks needed: reads take the value lock with `try_read` (signal/guards.rs
-    /// `Plain::try_new`), writes block; a party may hold the write guard across schedule entries
+    /// `Plain::try_new`), writes block; `w<v>` .. `u` is one `update` whose closure spans schedule entries
     fn run_sig(progs: &[Vec<SOp>], sched: &[usize]) -> String {
-        use reactive_graph::traits::Write;
         let n = progs.len();
         let mut eng = Engine::new((0..n).map(|_| vec![]).collect());
         let sig = ArcRwSignal::new(1u32);
@@ -926,37 +986,11 @@ mod real {
             let res = results[i].clone();
             let sig = sig.clone();
             eng.spawn(i, move || {
-                let mut guard = None;
-                for (k, op) in prog.iter().enumerate() {
-                    if yield_here(if k == 0 { "h:start" } else { "h:next" }) {
-                        return;
-                    }
-                    let r = match *op {
-                        SOp::Read => match catch_unwind(AssertUnwindSafe(|| sig.get_untracked())) {
-                            Ok(v) => v.to_string(),
-                            Err(_) => "panic".into(),
-                        },
-                        SOp::Set(v) => match catch_unwind(AssertUnwindSafe(|| sig.set(v))) {
-                            Ok(()) => ".".into(),
-                            Err(_) => "panic".into(),
-                        },
-                        SOp::HoldWrite(v) => {
-                            let mut g = sig.write();
-                            *g = v;
-                            guard = Some(g);
-                            ".".into()
-                        }
-                        SOp::Unhold => {
-                            guard = None;
-                            ".".into()
-                        }
-                    };
-                    res.lock().unwrap().push(r);
-                }
+                let mut k = 0usize;
+                sig_exec(&sig, &prog, &mut k, &res, false);
                 if prog.is_empty() {
                     yield_here("h:start");
                 }
-                drop(guard);
             });
         }
         eng.wait_all_started();
@@ -1231,6 +1265,17 @@ fn gen(seed: u64, n: usize, path: &str, tier: &str) -> std::io::Result<()> {
             }
         }
     }
+    for (progs, counts) in [
+        ("w5,u/r", vec![2, 1]),
+        ("w5,u/s7,r", vec![2, 2]),
+        ("w5,r,u/r,s3", vec![3, 2]),
+        ("s2,r/s3,r", vec![2, 2]),
+        ("w5,u/w6,u", vec![2, 2]),
+    ] {
+        for s in all_interleavings(&counts) {
+            emit(&mut f, "sig2", format!("sig {progs} {s}"))?;
+        }
+    }
     // thorough: the larger exhaustive sets
     if tier == "thorough" {
         for kind in ["value", "ref"] {
@@ -1274,6 +1319,45 @@ fn gen(seed: u64, n: usize, path: &str, tier: &str) -> std::io::Result<()> {
                     "chan-r",
                     format!("chan {polls} {} {s}", ms.iter().map(|m| m.to_string()).collect::<Vec<_>>().join(",")),
                 )?;
+            }
+            6 => {
+                // plain signal, two parties (a third could race with the second for a released lock)
+                let mut progs = vec![];
+                let mut counts = vec![];
+                for _ in 0..2 {
+                    let len = r.range(1, 3);
+                    let mut ops: Vec<String> = vec![];
+                    let mut held = false;
+                    for _ in 0..len {
+                        match r.below(5) {
+                            0 | 1 => ops.push("r".into()),
+                            2 => {
+                                if !held {
+                                    ops.push(format!("s{}", r.range(2, 9)))
+                                }
+                            }
+                            _ => {
+                                if held {
+                                    ops.push("u".into());
+                                    held = false
+                                } else {
+                                    ops.push(format!("w{}", r.range(2, 9)));
+                                    held = true
+                                }
+                            }
+                        }
+                    }
+                    if held {
+                        ops.push("u".into());
+                    }
+                    if ops.is_empty() {
+                        ops.push("r".into());
+                    }
+                    counts.push(ops.len());
+                    progs.push(ops.join(","));
+                }
+                let s = random_sched(&mut r, &counts);
+                emit(&mut f, "sig-r", format!("sig {} {s}", progs.join("/")))?;
             }
             _ => {
                 // two parties only: with three, two threads blocked on the same lock race for it for real
